@@ -240,7 +240,7 @@ Definition def_guard (p : fcprog) (d : fdef) : bool :=
   frag p (fdbody d) && ws (compile_ctx (fdctx d)) (fdbody d)
   && (if String.eqb (fdname d) "main" then data_ty p (fterm_type (fdbody d)) && ctx_data p (fdctx d) else true)
   && kd p (fdbody d) && Bool.eqb (tkind p (fdbody d)) (f_is_codata p (fdret d)).
-Definition prog_guard (p : fcprog) : bool := forallb (def_guard p) (fcpdefs p).
+Definition prog_guard (p : fcprog) : bool := negb (calls_main_prog p) && forallb (def_guard p) (fcpdefs p).
 
 
 (* the program guard as it was stated next to the Barendregt condition, when [def_guard] still contained the
@@ -249,5 +249,5 @@ Definition def_guard_b (p : fcprog) (d : fdef) : bool :=
   frag p (fdbody d) && ws (compile_ctx (fdctx d)) (fdbody d)
   && (if String.eqb (fdname d) "main" then data_ty p (fterm_type (fdbody d)) && ctx_data p (fdctx d) else true)
   && kd p (fdbody d) && Bool.eqb (tkind p (fdbody d)) (f_is_codata p (fdret d)).
-Definition frag_prog (p : fcprog) : bool := forallb (def_guard_b p) (fcpdefs p).
+Definition frag_prog (p : fcprog) : bool := negb (calls_main_prog p) && forallb (def_guard_b p) (fcpdefs p).
 
